@@ -285,6 +285,22 @@ pub fn cache_cases(rng: &mut Rng, thorough: bool) -> Vec<RsCase> {
         let bigs = |last: &str| Value::String(format!("{}{}", "é日".repeat(150), last));
         let calls = vec![call("g", lit(big(1))), call("g", lit(big(2))), call("g", lit(big(1))), call("g", lit(bigs("a"))), call("g", lit(bigs("b"))), call("g", lit(bigs("a")))];
         out.push(RsCase { tag: "large-args".into(), rules: vec![Expr::Vec(calls)], facts: Value::None, env: mk_env([true, true, false], [1, 1, 1], &[vec![], vec![], vec![]]), evals: 2 });
+        // … and large arguments of equal length that differ at ONE position only — the first, a middle or the last element /
+        // character — at several sizes, as the argument itself and inside a list / map: a key that abridges, samples or
+        // digests its argument separates none of these
+        for len in [40usize, 130, 200, 600, 1200, 5000] {
+            let mut calls = vec![];
+            for pos in [0usize, 1, len / 3, len / 2, len - 17, len - 2, len - 1] {
+                let st = |c: char| Value::String((0..len).map(|i| if i == pos { c } else { (b'a' + (i % 23) as u8) as char }).collect());
+                let ve = |x: i128| Value::Vec((0..len.min(600)).map(|i| if i == pos.min(len.min(600) - 1) { Value::Int(x) } else { Value::Int(i as i128) }).collect());
+                for (a, b) in [(st('X'), st('Y')), (ve(-1), ve(-2)), (Value::Vec(vec![st('X')]), Value::Vec(vec![st('Y')])), (crate::pool::map(&[("doc", st('X'))]), crate::pool::map(&[("doc", st('Y'))]))] {
+                    calls.push(call("g", lit(a.clone())));
+                    calls.push(call("g", lit(b)));
+                    calls.push(call("g", lit(a)));
+                }
+            }
+            out.push(RsCase { tag: format!("large-args-one-difference len{}", len), rules: vec![Expr::Vec(calls)], facts: Value::None, env: mk_env([true, true, false], [1, 1, 1], &[vec![], vec![], vec![]]), evals: 1 });
+        }
     }
     // (c) random histories
     let n = if thorough { 30000 } else { 3000 };
